@@ -999,10 +999,14 @@ class TestResult(unittest.TestResult):
         # A test may also have put a capture stream back itself (saved in
         # ``setUp``, restored in ``tearDown``) after a result event had
         # already restored the real ones.
-        if self.options.buffer and self._stdout_buffer is not None and (
+        # A capture stream the test had closed is gone (see
+        # ``_takeBufferedOutput``); the other one may still be installed.
+        if self.options.buffer and (
                 self._std_streams_buffered or
-                sys.stdout is self._stdout_buffer or
-                sys.stderr is self._stderr_buffer):
+                (self._stdout_buffer is not None and
+                 sys.stdout is self._stdout_buffer) or
+                (self._stderr_buffer is not None and
+                 sys.stderr is self._stderr_buffer)):
             self._std_streams_buffered = False
             sys.stdout = self._original_stdout
             sys.stderr = self._original_stderr
@@ -1015,6 +1019,8 @@ class TestResult(unittest.TestResult):
     def _takeBufferedOutput(self, name):
         """Return what a capture stream holds and empty the stream."""
         stream = getattr(self, name)
+        if stream is None:
+            return ''
         if stream.closed:
             # The test closed the stream it found as sys.stdout/sys.stderr:
             # what it wrote is gone, the next test gets a new stream.
